@@ -42,6 +42,7 @@ def check(run, prog, tier):
     run.rule("C17-D", "initial populations and the rate matrix are not mutated (also not through views of them)", minimum=6)
     rule_A(run, prog)
     rule_A2(run, prog)
+    rule_A3(run, prog)
     rule_B(run, prog)
     rule_C(run, prog)
     rule_D(run, prog)
@@ -211,6 +212,39 @@ def rule_A2(run, prog):
                        message="the constructor stores %s as the rate matrix: set_rate then writes into an array that keeps the "
                                "element type of what was given (whole numbers truncate the rates) and that the caller, or "
                                "another rate matrix, still holds" % norm(v), loc=init.loc(st_), sample={"store": norm(st_)})
+
+
+def rule_A3(run, prog):
+    """The same for every other way the array of a rate matrix is replaced: a method the class has (its own or inherited,
+    `set_data` comes from MatrixData) that stores one of its parameters as self.data stores a float64 copy.  Otherwise
+    `RM.set_data(numpy.zeros((2, 2), dtype=int)); RM.set_rate((0, 1), 0.5)` leaves all rates zero, and the matrix
+    shares its array with the caller."""
+    from .. import memo
+    rid = "C17-A"
+    cls = prog.cls("quantarhei.qm.liouvillespace.rates.ratematrix.RateMatrix")
+    FLOATS = ("float", "numpy.float64", "REAL", "numpy.double", "'float64'")
+    n = 0
+    for nme, f in memo._class_methods(prog, cls).items():
+        if nme == "__init__" or nme.startswith("_") or not hasattr(f.node, "args"):
+            continue
+        params = {a.arg for a in f.node.args.args[1:]}
+        for st_ in walk_no_nested(f.node):
+            if not (isinstance(st_, ast.Assign) and any(norm(t_) == "self.data" for t_ in st_.targets)):
+                continue
+            used = {y.id for y in ast.walk(st_.value) if isinstance(y, ast.Name)} & params
+            if not used:
+                continue
+            n += 1
+            prog.consulted.add(f.relpath)
+            v = st_.value
+            ok = isinstance(v, ast.Call) and call_name(v) == "array" and any(k.arg == "dtype" and norm(k.value) in FLOATS for k in v.keywords) \
+                and not any(k.arg == "copy" and isinstance(k.value, ast.Constant) and k.value.value is False for k in v.keywords)
+            run.obligation(rid, "RateMatrix.%s" % nme, ok, key="own-float-array:" + nme,
+                           message="%s (a method of RateMatrix) stores its argument as the rate matrix (`%s`): the array keeps the element "
+                                   "type of what was given - after set_data with whole numbers set_rate((0, 1), 0.5) stores 0 - and is "
+                                   "shared with the caller" % (f.short, norm(st_)), loc=f.loc(st_), sample={"store": norm(st_)})
+    if n < 1:
+        raise AnalysisError("C17-A: no public method of RateMatrix replaces its array from an argument (set_data confirmed)")
 
 
 def rule_C(run, prog):
